@@ -150,6 +150,11 @@ def run_blocks(ctx, rng, proxy, peer, history, config, ctor, dicts, pattern, cas
                     raise Marker()
         except Marker:
             pass
+        except BaseException as ex:  # noqa
+            ctx.violate("leaving-a-block-raised-%s" % type(ex).__name__, dict(case, level=level),
+                        {"raised": ex, "before": before, "now": snapshot(proxy)})
+            proxy("transport").additional_headers[:] = before
+            return
         after = snapshot(proxy)
         ctx.count("judged:block-exits")
         if after != before:
@@ -194,8 +199,18 @@ def run(ctx):
                     for kind in ("call", "notify", "batch"):
                         send(ctx, rng, proxy, peer, history, stack, config, case, kind)
                 finally:
-                    for cm in reversed(cms):
-                        cm.__exit__(None, None, None)
+                    for lvl, cm in enumerate(reversed(cms)):
+                        before_exit = snapshot(proxy)
+                        try:
+                            cm.__exit__(None, None, None)
+                        except BaseException as ex:  # noqa
+                            ctx.violate("leaving-a-block-raised-%s" % type(ex).__name__, case,
+                                        {"raised": ex, "stack_before_exit": before_exit})
+                            break
+                        if snapshot(proxy) != before_exit[:-1]:
+                            ctx.violate("headers-not-restored-on-normal-exit", case,
+                                        {"before_exit": before_exit, "after": snapshot(proxy)})
+                            break
                 proxy("close")()
                 if i == 0:
                     ctx.sample(case)
@@ -213,7 +228,11 @@ def run(ctx):
                 ctx.case(("variants", fam, names))
                 send(ctx, rng, proxy, peer, history, stack, config, case, "call")
                 for cm in reversed(cms):
-                    cm.__exit__(None, None, None)
+                    try:
+                        cm.__exit__(None, None, None)
+                    except BaseException as ex:  # noqa
+                        ctx.violate("leaving-a-block-raised-%s" % type(ex).__name__, case, {"raised": ex})
+                        break
                 proxy("close")()
             # 3. block histories: depth <= 3, all exit patterns
             for rep in range(ctx.pick(2, 30)):
